@@ -27,7 +27,7 @@ import (
 )
 
 type Report struct {
-	Files, Yields, ClassA, ClassB, ClassC, SyncTypes, Wrapped int
+	Files, Yields, ClassA, ClassB, ClassC, SyncTypes, Wrapped, MapLoops int
 	SitesJSON                                                 []byte
 }
 
@@ -122,6 +122,62 @@ func (rw *rewriter) rewritePackage(dir, rel string, files []string) error {
 				}
 			}
 		}
+	}
+	// names that denote Go maps (syntactic): fields, parameters, results and
+	// variables declared with a map type or initialised with make(map…) / a map
+	// literal; used to find the loops that range over a map
+	mapNames := map[string]bool{}
+	isMapType := func(e ast.Expr) bool {
+		_, ok := e.(*ast.MapType)
+		return ok
+	}
+	isMapValue := func(e ast.Expr) bool {
+		switch x := e.(type) {
+		case *ast.CompositeLit:
+			return x.Type != nil && isMapType(x.Type)
+		case *ast.CallExpr:
+			if id, ok := x.Fun.(*ast.Ident); ok && id.Name == "make" && len(x.Args) > 0 {
+				return isMapType(x.Args[0])
+			}
+		}
+		return false
+	}
+	for _, af := range parsed {
+		ast.Inspect(af, func(n ast.Node) bool {
+			switch x := n.(type) {
+			case *ast.Field:
+				if isMapType(x.Type) {
+					for _, nm := range x.Names {
+						mapNames[nm.Name] = true
+					}
+				}
+			case *ast.ValueSpec:
+				if x.Type != nil && isMapType(x.Type) {
+					for _, nm := range x.Names {
+						mapNames[nm.Name] = true
+					}
+				}
+				for i, v := range x.Values {
+					if isMapValue(v) && i < len(x.Names) {
+						mapNames[x.Names[i].Name] = true
+					}
+				}
+			case *ast.AssignStmt:
+				for i, v := range x.Rhs {
+					if isMapValue(v) && i < len(x.Lhs) {
+						if id, ok := x.Lhs[i].(*ast.Ident); ok {
+							mapNames[id.Name] = true
+						}
+					}
+				}
+			case *ast.FuncDecl:
+				// functions whose single result is a map
+				if x.Type.Results != nil && len(x.Type.Results.List) == 1 && isMapType(x.Type.Results.List[0].Type) {
+					mapNames[x.Name.Name+"()"] = true
+				}
+			}
+			return true
+		})
 	}
 	mutable := map[string]bool{}
 	markRoot := func(e ast.Expr) {
@@ -249,8 +305,12 @@ func (rw *rewriter) rewritePackage(dir, rel string, files []string) error {
 			if hasDirective(fd.Doc) {
 				continue
 			}
-			ins := &inserter{rw: rw, fset: fset, file: relFile, mutable: mutable, isVM: isVM}
+			ins := &inserter{rw: rw, fset: fset, file: relFile, mutable: mutable, isVM: isVM, mapNames: mapNames}
 			ins.block(fd.Body)
+			if ins.mapLoops > 0 {
+				ins.edits = append(ins.edits, edit{off(fd.Body.Lbrace) + 1, 0, " defer verifsim.QuietRestore(verifsim.QuietLevel());"})
+				rw.rep.MapLoops += ins.mapLoops
+			}
 			if classC && !isVM && len(fd.Body.List) > 0 {
 				id := rw.newSite(3, fset.Position(fd.Pos()), relFile, "func "+fd.Name.Name)
 				ins.edits = append(ins.edits, edit{off(fd.Body.Lbrace) + 1, 0, " " + yieldText(id) + ";"})
@@ -396,6 +456,30 @@ type inserter struct {
 	mutable map[string]bool
 	isVM    bool
 	edits   []edit
+	mapNames map[string]bool
+	mapLoops int
+	quiet    int // >0 while descending into the body of a map-ranging loop
+}
+
+// rangesOverMap: the range expression is a name known to denote a map, a
+// selector ending in such a name, or a call of a function returning a map.
+func (ins *inserter) rangesOverMap(x ast.Expr) bool {
+	switch e := x.(type) {
+	case *ast.Ident:
+		return ins.mapNames[e.Name]
+	case *ast.SelectorExpr:
+		return ins.mapNames[e.Sel.Name]
+	case *ast.CallExpr:
+		switch f := e.Fun.(type) {
+		case *ast.Ident:
+			return ins.mapNames[f.Name+"()"]
+		case *ast.SelectorExpr:
+			return ins.mapNames[f.Sel.Name+"()"]
+		}
+	case *ast.ParenExpr:
+		return ins.rangesOverMap(e.X)
+	}
+	return false
 }
 
 // classify looks at the statement's own expressions (not at nested blocks,
@@ -491,6 +575,13 @@ func (ins *inserter) list(stmts []ast.Stmt) []ast.Stmt {
 		inner := st
 		if ls, ok := st.(*ast.LabeledStmt); ok {
 			inner = ls.Stmt
+		}
+		if rs, ok := inner.(*ast.RangeStmt); ok && ins.rangesOverMap(rs.X) {
+			// a loop over a map: no scheduling points inside (see verifsim.QuietOn)
+			ins.mapLoops++
+			ins.edits = append(ins.edits, edit{ins.fset.Position(st.Pos()).Offset, 0, "verifsim.QuietOn(); "})
+			ins.edits = append(ins.edits, edit{ins.fset.Position(rs.End()).Offset, 0, "; verifsim.QuietOff()"})
+			continue
 		}
 		if class, why := ins.classify(inner); class != 0 {
 			id := ins.rw.newSite(class, ins.fset.Position(st.Pos()), ins.file, why)
